@@ -219,6 +219,7 @@ type WEval struct {
 	parentEval *WEval                 // for a function literal: the evaluator of the function that creates it
 	argLay     map[ssa.Value]*Lay     // byte-slice parameters of an evaluated callee: the caller's layout of the argument
 	pathBlocks map[*ssa.BasicBlock]bool // evaluation along one enumerated path: the blocks on it (writes elsewhere did not happen)
+	fillAcc    map[*ssa.MakeSlice]*ssa.Phi // buffers filled at a running offset: the offset's loop phi (its exit value is the length filled)
 	splitPhi   *ssa.Phi               // set when a merged value had to be printed inside a term (see evalFuncResult)
 	splits     int
 }
@@ -715,6 +716,7 @@ func (w *WEval) evalFilledMake(mk *ssa.MakeSlice) *Lay {
 		l      *Lay
 	}
 	var segs []seg
+	accs := map[string]*ssa.Phi{}
 	constLin := func(k int64) *TLin {
 		l := newTLin()
 		l.Const.SetInt64(k)
@@ -790,6 +792,13 @@ func (w *WEval) evalFilledMake(mk *ssa.MakeSlice) *Lay {
 			if isLoopHeader(x.Block()) && phiStartsAt(x, 0) && phiStepsByOne(x, x.Block()) {
 				l := newTLin()
 				l.addAtom("#i", big.NewInt(1))
+				return l
+			}
+			if isLoopHeader(x.Block()) && phiStartsAt(x, 0) && isIntType(x.Type()) {
+				// a running total (offset or size) carried round a loop from 0
+				accs["#acc:"+x.Name()] = x
+				l := newTLin()
+				l.addAtom("#acc:"+x.Name(), big.NewInt(1))
 				return l
 			}
 		case *ssa.Call:
@@ -905,6 +914,35 @@ func (w *WEval) evalFilledMake(mk *ssa.MakeSlice) *Lay {
 		if loopBad {
 			return unk("buffer filled in more than one loop")
 		}
+		// writes at a running offset: every write is #acc + c, inside one iteration the c's tile [0, step),
+		// the offset advances by step, and the buffer's length is the total of the same step summed by an
+		// earlier loop over the same collection
+		accName := ""
+		for _, sg := range segs {
+			for a := range sg.off.Coef {
+				if strings.HasPrefix(a, "#acc:") && accs[a] != nil && accs[a].Block() == loopHdr {
+					accName = a
+				}
+			}
+		}
+		if accName != "" {
+			return w.runningOffsetFill(mk, loopHdr, accName, accs, func() []struct {
+				off, n *TLin
+				l      *Lay
+			} {
+				var out []struct {
+					off, n *TLin
+					l      *Lay
+				}
+				for _, sg := range segs {
+					out = append(out, struct {
+						off, n *TLin
+						l      *Lay
+					}{sg.off, sg.n, sg.l})
+				}
+				return out
+			}(), off)
+		}
 		var stride *big.Int
 		for _, sg := range segs {
 			co := sg.off.Coef["#i"]
@@ -995,6 +1033,13 @@ func (w *WEval) evalSlice(x *ssa.Slice) *Lay {
 	if !ok {
 		if x.Low == nil && x.High == nil {
 			return w.eval(x.X)
+		}
+		// buf[:off] of a buffer filled at the running offset off: all of it
+		if mk, isMk := x.X.(*ssa.MakeSlice); isMk && x.Low == nil && x.Max == nil {
+			l := w.evalFilledMake(mk)
+			if ph, isPh := x.High.(*ssa.Phi); isPh && (w.fillAcc[mk] == ph || strings.Contains(l.String(), "Unknown(") && isLoopHeader(ph.Block())) {
+				return l
+			}
 		}
 		// arr[:] of a hash result array etc.
 		return unk("re-slice %s", w.term(x))
@@ -1952,4 +1997,106 @@ func phiStepsByOne(ph *ssa.Phi, h *ssa.BasicBlock) bool {
 		n++
 	}
 	return n > 0
+}
+
+
+// runningOffsetFill: see evalFilledMake. off renders an integer value as a linear form over len(...) atoms,
+// "#i" and "#acc:<phi>" atoms.
+func (w *WEval) runningOffsetFill(mk *ssa.MakeSlice, loopHdr *ssa.BasicBlock, accName string, accs map[string]*ssa.Phi, segs []struct {
+	off, n *TLin
+	l      *Lay
+}, off func(ssa.Value, int) *TLin) *Lay {
+	one := big.NewInt(1)
+	strip := func(l *TLin, name string) *TLin {
+		m := newTLin()
+		m.addAtom(name, big.NewInt(-1))
+		return l.add(m, 1)
+	}
+	for _, sg := range segs {
+		if co := sg.off.Coef[accName]; co == nil || co.Cmp(one) != 0 {
+			return unk("buffer filled in a loop partly at a running offset, partly elsewhere")
+		}
+	}
+	cur := newTLin()
+	var items []*Lay
+	used := make([]bool, len(segs))
+	for range segs {
+		found := false
+		for i, sg := range segs {
+			if !used[i] && strip(sg.off, accName).equal(cur) {
+				used[i], found = true, true
+				items = append(items, sg.l)
+				cur = cur.add(sg.n, 1)
+				break
+			}
+		}
+		if !found {
+			return unk("per-iteration writes do not follow one another from the running offset (gap at +%s)", cur.String())
+		}
+	}
+	// the offset advances by exactly what was written
+	acc := accs[accName]
+	for i, p := range loopHdr.Preds {
+		if loopHdr.Dominates(p) {
+			if !strip(off(acc.Edges[i], 0), accName).equal(cur) {
+				return unk("the running offset advances by %s but %s bytes are written per iteration", strip(off(acc.Edges[i], 0), accName).String(), cur.String())
+			}
+		}
+	}
+	// the buffer's length: a total carried round an earlier loop over the same collection, advancing by the same step
+	total := off(mk.Len, 0)
+	var sizeAcc *ssa.Phi
+	for a, co := range total.Coef {
+		if strings.HasPrefix(a, "#acc:") && co.Cmp(one) == 0 && len(total.Coef) == 1 && total.Const.Sign() == 0 {
+			sizeAcc = accs[a]
+		}
+	}
+	if sizeAcc == nil {
+		return unk("buffer of length %s filled at a running offset: the length is not a total summed by an earlier loop", total.String())
+	}
+	sh := sizeAcc.Block()
+	if !sh.Dominates(mk.Block()) || sh == loopHdr {
+		return unk("the sizing loop does not run before the buffer is made")
+	}
+	coll, collSize := w.rangeTerm(loopHdr), w.rangeTerm(sh)
+	if coll == "" || coll != collSize {
+		return unk("buffer sized by a loop over %s but filled by a loop over %s", collSize, coll)
+	}
+	sizeName := "#acc:" + sizeAcc.Name()
+	for i, p := range sh.Preds {
+		if sh.Dominates(p) {
+			step := strip(off(sizeAcc.Edges[i], 0), sizeName)
+			if !step.equal(cur) {
+				return unk("the buffer is sized with %s per element but %s bytes are written per element: the writes do not fit (or leave a tail)", step.String(), cur.String())
+			}
+		}
+	}
+	// every element is sized: the sizing loop has no exit other than its header and no iteration skips the addition
+	for _, b := range w.fn.Blocks {
+		if hs := dominatingLoopHeaders(b); len(hs) == 1 && hs[0] == sh {
+			for _, s := range b.Succs {
+				if s != sh && !loopBodyContains(sh, s) {
+					return unk("the sizing loop can stop early")
+				}
+			}
+			if _, isRet := b.Instrs[len(b.Instrs)-1].(*ssa.Return); isRet {
+				return unk("the sizing loop can stop early")
+			}
+		}
+	}
+	// the elements are not changed between the two loops
+	for _, b := range w.fn.Blocks {
+		for _, ins := range b.Instrs {
+			if st, ok := ins.(*ssa.Store); ok {
+				if ia, ok := st.Addr.(*ssa.IndexAddr); ok && w.term(ia.X) == coll {
+					return unk("the collection %s is written while its elements are sized and copied", coll)
+				}
+			}
+		}
+	}
+	if w.fillAcc == nil {
+		w.fillAcc = map[*ssa.MakeSlice]*ssa.Phi{}
+	}
+	w.fillAcc[mk] = acc
+	return &Lay{K: "loop", S: coll, Items: []*Lay{seqOf(items...)}}
 }
